@@ -34,10 +34,10 @@ def points(ctx):
     return 200 if ctx.thorough else 8
 
 
-def eq(ctx, rule, key, got, want, site="", what=""):
+def eq(ctx, rule, key, got, want, site="", what="", nonzero=()):
     """Obligation: value graph *got* equals the specified expression *want*."""
     try:
-        ok, how, wit = algebra.equal(got, want, seed=ctx.seed, points=points(ctx))
+        ok, how, wit = algebra.equal(got, want, seed=ctx.seed, points=points(ctx), nonzero=nonzero)
     except AnalysisError as exc:
         raise AnalysisError(f"{rule} {key}: {exc}")
     if ok:
